@@ -79,6 +79,17 @@ def build(prop):
     lock = os.path.join(HARNESS, "Cargo.lock")
     if not os.path.exists(lock):
         shutil.copy(os.path.join(REPO, "Cargo.lock"), lock)
+    # kani keeps one output directory per (crate hash, harness filter); remove the
+    # harness crate's old outputs so that the metadata read below is this build's
+    for pat in ("kani/*/debug/build/gdverif", "kani/*/debug/deps/*gdverif*", "kani/*/debug/.fingerprint/gdverif*"):
+        for f in glob.glob(os.path.join(target_dir(prop), pat)):
+            if os.path.isdir(f):
+                shutil.rmtree(f, ignore_errors=True)
+            else:
+                try:
+                    os.remove(f)
+                except OSError:
+                    pass
     cmd = ["cargo", "kani", "--features", prop.lower(), "-Z", "stubbing", "--only-codegen",
            "--target-dir", target_dir(prop)]
     t0 = time.time()
@@ -259,7 +270,7 @@ def replay(prop, name, logdir):
     res = run_harness(prop, name, THOROUGH_TIMEOUT, logdir, playback=True)
     text = open(res["log"], errors="replace").read()
     tests = PLAYBACK_RE.findall(text)
-    tests = [t for t in tests if "kani::concrete_playback_run" in t]
+    tests = [t for t in tests if "kani::concrete_playback_run" in t and "Check for `cover`" not in t]
     os.makedirs(os.path.join(VERIF, "replays"), exist_ok=True)
     base = os.path.join(VERIF, "replays", "%s-%s" % (prop, name.split("::")[-1]))
     if not tests:
@@ -374,6 +385,13 @@ def main():
     confirmed = []
     replayed = {}
     for (name, c, sig, only_unwind) in violations:
+        if only_unwind:
+            # a loop bound of the harness was too small for this tree: the bounded
+            # claim cannot be made, but nothing has been shown to be wrong either
+            inconclusive.append((name, "unwinding bound too small: %s @ %s" % (c["desc"], c["id"])))
+            continue
+        if "unwinding assertion" in c["desc"]:
+            continue
         if name not in replayed:
             if args.no_replay:
                 replayed[name] = (True, os.path.join(logdir, name.replace("::", "__") + ".log"), "replay skipped")
